@@ -3,6 +3,7 @@ import Mappy.Wire
 import Mappy.Model.CIDict
 import Mappy.Model.DictUtils
 import Mappy.Model.Printer
+import Mappy.Model.Includes
 import Mappy.Gen.Props
 open Lean Mappy Mappy.Wire
 
@@ -103,6 +104,20 @@ def quoterOp (req : Json) : Except String Json := do
   | "standardise_quotes" => pure (t (Quoter.standardiseQuotes q s))
   | x => throw s!"bad quoter fn {x}"
 
+/-! ### includes -/
+def pairsOf (j : Json) (k : String) : Except String (List (Str × Str)) := do
+  (← getArr j k).mapM fun p =>
+    match p with
+    | .arr #[.str a, .str b] => pure (s2l a, s2l b)
+    | _ => throw "bad pair"
+
+def includesOp (req : Json) : Except String Json := do
+  let files ← pairsOf req "files"
+  let res ← pairsOf req "resolve"
+  let fs : Str → Option Str := fun p => lookupS p files
+  let resolve : Str → Str := fun n => (lookupS n res).getD (s2l "<unresolved>" ++ n)
+  pure (resS (Includes.loadIncludes fs resolve (← getNat req "nested") (← getStr req "text")))
+
 def handle (op : String) (req : Json) : Except String Json := do
   match op with
   | "echo" => pure (ofJ (← getJ req "v"))
@@ -113,6 +128,8 @@ def handle (op : String) (req : Json) : Except String Json := do
     | none => pure (Json.mkObj [("err", .str "IOError")])
     | some p => pure (resS (Printer.formatValue (← getChar req "quote") (← getStr req "attr") p (← getJ req "value")))
   | "quoter" => quoterOp req
+  | "includes" => includesOp req
+  | "include_name" => pure (resS (Includes.includeName (← getStr req "line")))
   | "update" => pure (resJ (DictUtils.update (← getBool req "ci") (← getBool req "ow") (← getJ req "d1") (← getFields req "d2")))
   | "find" => pure (resJ (DictUtils.find (← getBool req "ci") (← getStr req "key") (← getJ req "value") (← getList req "lst")))
   | "findall" => pure (resL (DictUtils.findall (← getBool req "ci") (← getStr req "key") (← getJ req "value") (← getList req "lst")))
